@@ -48,6 +48,17 @@ func c17Depth(tier string) (direct, session int) {
 	return 4, 2
 }
 
+// failingWriter / shortWriter: transports on which writing fails (completely / after half of the bytes).
+type failingWriter struct{}
+
+func (failingWriter) Write(p []byte) (int, error) { return 0, errors.New("transport failed") }
+
+type shortWriter struct{}
+
+func (*shortWriter) Write(p []byte) (int, error) {
+	return len(p) / 2, errors.New("transport failed half-way")
+}
+
 func c17Check(res *explore.Result, raw []byte, want map[byte]string) {
 	ms, err := pgproto.ParseBackend(raw)
 	if err != nil {
@@ -167,6 +178,9 @@ func c17Enumerate(tier string, emit explore.Emit) {
 					var sink bytes.Buffer
 					wire.ErrorCode(buffer.NewWriter(harness.Quiet, &sink), buildErr(ds, "first", first))
 					sink.Reset()
+					// ... and once more to a connection whose transport fails while the report is written
+					wire.ErrorCode(buffer.NewWriter(harness.Quiet, failingWriter{}), buildErr(ds, "first (not delivered)", first))
+					wire.ErrorCode(buffer.NewWriter(harness.Quiet, &shortWriter{}), buildErr(ds, "first (half delivered)", first))
 					wire.ErrorCode(buffer.NewWriter(harness.Quiet, &sink), buildErr(ds, "boom", second))
 					before := len(res.Violations)
 					c17Check(&res, sink.Bytes(), expectFields(ds, "boom", second))
